@@ -386,6 +386,8 @@ def c19(work, tier, seed, replay):
         os.remove(cp)
     seqfam.settle(rep, "C19", fails, events, {})
     keytypes_part(work, rep, seed, "C19")
+    # the endpoint inside the production binary (Prometheus factory, verbosity 2): origins nobody configured, of many shapes, and malformed bodies
+    cb.endpoint_e2e_part(work, rep, tier, seed, "C19", ["unknown-origin", "nosize", "oversize"], prod=True)
     # (3) the add-checkpoint endpoint: one valid request per verdict class and body class (TLC-emitted transitions of MC_Bastion) plus byte-level mutations
     c = cb.bconsts("quick", MaxSize=2, Olds={0, 1, 2, 3}, BadKinds={"random", "flip"})
     cfg = cfg_text(spec="BSpec", constants=c, invariants=["TypeOK"], properties=["AnswersDocumented"], view="BView", action_constraints=["BEmit"])
